@@ -1,4 +1,4 @@
-import TracklibVerif.Model.Geo
+import TracklibVerif.Model.GeoHeap
 import TracklibVerif.Drv.Util
 /-! Driver handler for C14 (coordinate conversions), the model instantiated at `Float`.
 Floats are IEEE bit patterns. A point is three tokens; a base is four tokens `G|E x y z`.
@@ -9,8 +9,20 @@ Floats are IEEE bit patterns. A point is three tokens; a base is four tokens `G|
   e2n|n2e|g2n|n2g <p:3> <base:4>     → 3 floats
   n2n <p:3> <base:4> <base2:4>       → 3 floats
   lamb <p:3>                         → 9 floats: L93(p), inverse of it, L93 of that
+  resid <lat0> <dlat> <n> <h0> <dh> <m>   the residual of Geo → ECEF → Geo in the meridian plane (`meridianRoundTrip`) on the grid
+                                     lat0 + i·dlat (i < n) × h0 + j·dh (j < m) → 6 floats: max |lat' − lat| and where (lat, h),
+                                     max |h' − h| and where (lat, h)
   track <G|N|E> <x,y,z;…> <barg> <op:barg>…   with barg = _ | G,x,y,z | E,x,y,z | S,n and op ∈ ENU GEO ECEF PROJ
-                                     → per op `<kind> <pts> <barg>`; the first error ends the reply with `err:<kind>` -/
+                                     → per op `<kind> <pts> <barg>`; the first error ends the reply with `err:<kind>`
+  hist <op>…                         a history on the object heap of `Model/GeoHeap.lean`. Values: `_` (None) | `S<n>` (int) |
+                                     `o<k>` (the k-th object created by a `new`/`call`/`tif` op) | `t<k>p<i>` (the object that is now
+                                     the i-th position of track k) | `t<k>b` (what `Track.base` of track k is now).
+                                     Ops: `new:<G|N|E>:x,y,z` | `set:<val>:<0|1|2>:x` | `call:<val>:<ECEF|ENU|GEO|PROJ>:<val>/…|-`
+                                     | `mk:<val>/…|-:<val>` | `tc:<k>:<ECEF|ENU|GEO|PROJ>:<val>` | `tif:<k>` (toENUCoordsIfNeeded;
+                                     the result index is the returned base, `_` for None)
+                                     → per op `<result index|_>|<new objects K,x,y,z;…|_>|<changed old objects i,x,y,z;…|_>|
+                                     <track: p1,p2,…|-~base|_>` with base = `_` | `S,n` | `R,index`; the first error ends the
+                                     reply with `err:<kind>` -/
 namespace TV.Drv.C14
 open TV.Geo TV.Drv
 
@@ -64,6 +76,7 @@ def showKind : Kind → String
 
 def showErr : Err → String
   | .exit => "err:exit" | .attr => "err:attr" | .index => "err:index" | .unmodelled => "err:unmodelled"
+  | .type => "err:type" | .dangling => "bad-request"
 
 def pts? (s : String) : Option (List (V3 Float)) := do
   let rows ← floatListList? s
@@ -97,6 +110,155 @@ def runOps : Track Float → List String → List String → String
     | some (.error e) => " ".intercalate (showErr e :: acc).reverse
     | some (.ok t') => runOps t' ops (showTrack t' :: acc)
 
+
+/-! ### histories on the object heap -/
+
+/-- driver state: the world, and the heap indices of the objects created by `new`/`call` ops, in order -/
+structure HState where
+  w : World Float
+  named : List Nat
+
+def natAfter? (s : String) (pre : String) : Option Nat :=
+  if s.startsWith pre then (s.drop pre.length).toString.toNat? else none
+
+/-- `_` | `S<n>` | `o<k>` | `t<k>p<i>` | `t<k>b` -/
+def val? (st : HState) (s : String) : Option Val :=
+  if s == "_" then some .none
+  else if s.startsWith "S" then (natAfter? s "S").map .int
+  else if s.startsWith "o" then do
+    let k ← natAfter? s "o"
+    let i ← st.named[k]?
+    some (.ref i)
+  else if s.startsWith "t" then
+    if s.endsWith "b" then do
+      let k ← ((s.drop 1).toString.dropEnd 1).toString.toNat?
+      let t ← st.w.tracks[k]?
+      some t.base
+    else
+      match (s.drop 1).toString.splitOn "p" with
+      | [a, b] => do
+        let k ← a.toNat?
+        let i ← b.toNat?
+        let t ← st.w.tracks[k]?
+        let r ← t.pts[i]?
+        some (.ref r)
+      | _ => none
+  else none
+
+def ref? (st : HState) (s : String) : Option Nat :=
+  match val? st s with
+  | some (.ref i) => some i
+  | _ => none
+
+def vals? (st : HState) (s : String) : Option (List Val) :=
+  if s == "-" then some [] else (s.splitOn "/").mapM (val? st)
+
+def meth? (s : String) : Option Meth :=
+  if s == "ECEF" then some .ecef else if s == "ENU" then some .enu else if s == "GEO" then some .geo
+  else if s == "PROJ" then some .proj else none
+
+def showObj (o : Obj Float) : String := s!"{showKind o.kind},{showFloat o.v.x},{showFloat o.v.y},{showFloat o.v.z}"
+
+def showVal : Val → String
+  | .none => "_" | .int n => s!"S,{n}" | .ref i => s!"R,{i}"
+
+def showHTrack (t : HTrack) : String :=
+  (if t.pts.isEmpty then "-" else ",".intercalate (t.pts.map toString)) ++ "~" ++ showVal t.base
+
+/-- the objects of the old heap whose class or attributes differ in the new one -/
+def changedObjs : Nat → List (Obj Float) → List (Obj Float) → List String
+  | i, o :: os, n :: ns =>
+    let rest := changedObjs (i + 1) os ns
+    if showObj o == showObj n then rest else s!"{i},{showFloat n.v.x},{showFloat n.v.y},{showFloat n.v.z}" :: rest
+  | _, _, _ => []
+
+def showStep (old new : World Float) (res : Option Nat) (trk : Option Nat) : String :=
+  let r := match res with | some i => toString i | none => "_"
+  let nw := joinWith ";" ((new.heap.drop old.heap.length).map showObj)
+  let ch := joinWith ";" (changedObjs 0 old.heap new.heap)
+  let t := match trk with
+    | some k => (match new.tracks[k]? with | some t => showHTrack t | none => "_")
+    | none => "_"
+  s!"{r}|{nw}|{ch}|{t}"
+
+/-- parse one op against the current state; `none` = malformed -/
+def op? (st : HState) (tok : String) : Option (Op Float) :=
+  match tok.splitOn ":" with
+  | ["new", k, v] => do
+    let k ← kind? k
+    match ← floatList? v with
+    | [x, y, z] => some (.new k ⟨x, y, z⟩)
+    | _ => none
+  | ["set", r, c, x] => do
+    let i ← ref? st r
+    let c ← c.toNat?
+    let x ← float? x
+    if c < 3 then some (.set i c x) else none
+  | ["call", r, m, a] => do
+    let i ← ref? st r
+    let m ← meth? m
+    let a ← vals? st a
+    some (.call i m a)
+  | ["mk", ps, b] => do
+    let ps ← if ps == "-" then some [] else (ps.splitOn "/").mapM (ref? st)
+    let b ← val? st b
+    some (.mkTrack ps b)
+  | ["tc", k, m, a] => do
+    let k ← k.toNat?
+    let m ← meth? m
+    let a ← val? st a
+    if m == .proj then (match a with | .int _ => some (.trackConv k m a) | _ => none)
+    else some (.trackConv k m a)
+  | ["tif", k] => k.toNat?.map .trackENUIf
+  | _ => none
+
+def runHist : HState → List String → List String → String
+  | _, [], acc => " ".intercalate acc.reverse
+  | st, tok :: toks, acc =>
+    match op? st tok with
+    | none => "bad-request"
+    | some op =>
+      match st.w.step FT op with
+      | .error .dangling => "bad-request"
+      | .error e => " ".intercalate (showErr e :: acc).reverse
+      | .ok w' =>
+        let n := st.w.heap.length
+        let (res, trk, named) : Option Nat × Option Nat × List Nat := match op with
+          | .new _ _ => (some n, none, st.named ++ [n])
+          | .call _ _ _ => (some n, none, st.named ++ [n])
+          | .set _ _ _ => (none, none, st.named)
+          | .mkTrack _ _ => (none, some st.w.tracks.length, st.named)
+          | .trackConv k _ _ => (none, some k, st.named)
+          -- the returned base counts as a created object (`o<k>`); when the method returns None the entry designates nothing
+          | .trackENUIf k => (if w'.heap.length > n then some n else none, some k, st.named ++ [if w'.heap.length > n then n else w'.heap.length])
+        runHist ⟨w', named⟩ toks (showStep st.w w' res trk :: acc)
+
+/-! ### the residual of Geo → ECEF → Geo on a (latitude, height) grid -/
+
+structure ResidAcc where
+  dlat : Float := 0.0
+  latAt : Float := 0.0
+  hAt : Float := 0.0
+  dh : Float := 0.0
+  latAt2 : Float := 0.0
+  hAt2 : Float := 0.0
+
+def residStep (acc : ResidAcc) (lat h : Float) : ResidAcc :=
+  let (lat', h') := meridianRoundTrip FT lat h
+  let e1 := (lat' - lat).abs
+  let e2 := (h' - h).abs
+  -- `not (e <= max)`: a NaN residual is kept as the maximum
+  let acc := if !(e1 <= acc.dlat) then { acc with dlat := e1, latAt := lat, hAt := h } else acc
+  if !(e2 <= acc.dh) then { acc with dh := e2, latAt2 := lat, hAt2 := h } else acc
+
+def residGrid (lat0 dlat : Float) (n : Nat) (h0 dh : Float) (m : Nat) : ResidAcc := Id.run do
+  let mut acc : ResidAcc := {}
+  for i in [0:n] do
+    let lat := lat0 + i.toFloat * dlat
+    for j in [0:m] do
+      acc := residStep acc lat (h0 + j.toFloat * dh)
+  return acc
+
 def handle (cmd : String) (args : List String) : String :=
   match cmd, args with
   | "const", [] =>
@@ -106,6 +268,13 @@ def handle (cmd : String) (args : List String) : String :=
     match kind? k, pts? p, barg? b with
     | some k, some p, some b => runOps ⟨k, p, b⟩ ops []
     | _, _, _ => "bad-request"
+  | "resid", [lat0, dlat, n, h0, dh, m] =>
+    match float? lat0, float? dlat, n.toNat?, float? h0, float? dh, m.toNat? with
+    | some lat0, some dlat, some n, some h0, some dh, some m =>
+      let a := residGrid lat0 dlat n h0 dh m
+      " ".intercalate ([a.dlat, a.latAt, a.hAt, a.dh, a.latAt2, a.hAt2].map showFloat)
+    | _, _, _, _, _, _ => "bad-request"
+  | "hist", ops => runHist ⟨⟨[], []⟩, []⟩ ops []
   | "pt", _ =>
     match pt? args with
     | some (g, rest) =>
